@@ -1268,6 +1268,45 @@ fn fixed_case(ctx: &mut Ctx, r: &mut Rng, st: &St) {
         ctx.bucket("fixed.accepted-non-canonical");
     }
     ctx.sample("fixed-input", || json!({"input": hx(&x), "library_encoding": hx(&canon_bytes), "mutations": kind_names(applied)}));
+    // a REFUSED replacement leaves the transaction as it was: same bytes, same hash
+    if r.below(4) == 0 {
+        let mut probe = ft.clone();
+        if let (Ok(h0), Ok(b0)) = (guard(|| probe.transaction_hash().to_bytes()), guard(|| probe.to_bytes())) {
+            let mut bad = match r.below(3) {
+                0 => {
+                    let mut b = exp.body.clone();
+                    b.push(0x00);
+                    b
+                }
+                1 => vec![0x01],
+                _ => vec![],
+            };
+            let which = r.below(3);
+            if which != 0 && bad.len() > 1 {
+                bad = vec![0xa1, 0x00];
+            }
+            let (setter, res) = match which {
+                0 => ("set_body", guard(|| probe.set_body(&bad).is_ok())),
+                1 => ("set_witness_set", guard(|| probe.set_witness_set(&bad).is_ok())),
+                _ => ("set_auxiliary_data", guard(|| probe.set_auxiliary_data(&bad).is_ok())),
+            };
+            match res {
+                Ok(false) => {
+                    let h1 = guard(|| probe.transaction_hash().to_bytes()).unwrap_or_default();
+                    let b1 = guard(|| probe.to_bytes()).unwrap_or_default();
+                    if h1 != h0 {
+                        viol!(ctx, &format!("FixedTransaction.{}/refused-but-transaction-hash-changed", setter), json!({"input": hx(&x), "refused_bytes": hx(&bad), "hash_before": hx(&h0), "hash_after": hx(&h1)}));
+                    } else if b1 != b0 {
+                        viol!(ctx, &format!("FixedTransaction.{}/refused-but-bytes-changed", setter), json!({"input": hx(&x), "refused_bytes": hx(&bad)}));
+                    } else {
+                        ctx.bucket("fixed.refused-setter-leaves-transaction-unchanged");
+                    }
+                }
+                Ok(true) => ctx.bucket("fixed.bad-replacement-accepted"),
+                Err(p) => ctx.panic_seen(&p),
+            }
+        }
+    }
     let nops = r.below(5) as usize;
     let ops: Vec<u64> = (0..nops).map(|_| r.below(N_OPS)).collect();
     run_ops(ctx, ft, &exp, Track::default(), &ops, r, st, "from_bytes", &x, "fixed.");
